@@ -51,15 +51,21 @@ Definition observe (alpha : list N) (tag : nat) (s : text) : N :=
   | _ => encode_opt alpha (rename_class s true)
   end.
 
-Fixpoint bad_pos (i : nat) (got want : list N) : list nat :=
-  match got, want with
-  | g :: gt, w :: wt => if g =? w then bad_pos (S i) gt wt else i :: bad_pos (S i) gt wt
-  | [], [] => []
-  | _, _ => [i]
+(* positions (binary numbers) of at most `budget` disagreements: long lists of unary naturals are
+   very slow to print when nearly every case disagrees *)
+Fixpoint bad_pos (got want : list N) (i : N) (budget : nat) {struct got} : list N :=
+  match budget with
+  | O => []
+  | S b =>
+      match got, want with
+      | g :: gt, w :: wt => if g =? w then bad_pos gt wt (i + 1) budget else i :: bad_pos gt wt (i + 1) b
+      | [], [] => []
+      | _, _ => [i]
+      end
   end.
-(* block = all strings  prefix ++ t,  t over alpha, |t| <= n ; returns indices that disagree *)
-Definition check_block (alpha : list N) (tag : nat) (prefix : text) (n : nat) (want : list int) : list nat :=
-  bad_pos 0 (map (fun t => observe alpha tag (prefix ++ t)) (strings_upto alpha n)) (map of_int want).
+(* block = all strings  prefix ++ t,  t over alpha, |t| <= n ; returns the first (<= 12) indices that disagree *)
+Definition check_block (alpha : list N) (tag : nat) (prefix : text) (n : nat) (want : list int) : list N :=
+  bad_pos (map (fun t => observe alpha tag (prefix ++ t)) (strings_upto alpha n)) (map of_int want) 0 12.
 
 (* explicit cases (random identifiers / non-ASCII stream) *)
 Definition case_ok (c : nat * text * option text) : bool :=
